@@ -1,0 +1,144 @@
+//! Direct access to the crate-private blob index (in-memory map + on-disk B+tree), expressed
+//! over plain values so that a harness can compare the two representations.
+
+use std::path::Path;
+
+use crate::blob::index::{Index, IndexConfig, IndexTrait};
+use crate::blob::FileName;
+use crate::filter::FilterTrait;
+use crate::prelude::*;
+
+#[derive(Debug, Clone, PartialEq, Eq, PartialOrd, Ord, Hash)]
+pub struct ProbeHeader {
+    pub key: Vec<u8>,
+    pub timestamp: u64,
+    pub deleted: bool,
+    pub blob_offset: u64,
+    pub data_size: u64,
+}
+
+impl ProbeHeader {
+    fn to_record_header(&self) -> Result<RecordHeader> {
+        let mut h = RecordHeader::new(self.key.clone(), self.timestamp, 8, self.data_size, 0);
+        if self.deleted {
+            h.mark_as_deleted()?;
+        }
+        Ok(h.verif_with_offset(self.blob_offset)?)
+    }
+
+    fn from_record_header(h: &RecordHeader) -> Self {
+        Self {
+            key: h.key().to_vec(),
+            timestamp: h.timestamp(),
+            deleted: h.is_deleted(),
+            blob_offset: h.blob_offset(),
+            data_size: h.data_size(),
+        }
+    }
+}
+
+pub struct IndexProbe<K>
+where
+    for<'a> K: Key<'a> + 'static,
+{
+    index: Index<K>,
+}
+
+impl<K> IndexProbe<K>
+where
+    for<'a> K: Key<'a> + 'static,
+{
+    /// An empty in-memory index whose file will be `index_path` (`<prefix>.<id>.index`).
+    pub fn new(index_path: &Path, bloom: Option<BloomConfig>) -> Result<Self> {
+        let name = FileName::from_path(index_path)?;
+        let config = IndexConfig {
+            bloom_config: bloom,
+            recreate_index_file: true,
+        };
+        Ok(Self {
+            index: Index::new(name, IoDriver::new_sync(), config),
+        })
+    }
+
+    /// Opens an existing index file (validated against `blob_size`), state `OnDisk`.
+    pub async fn open(index_path: &Path, bloom: Option<BloomConfig>, blob_size: u64) -> Result<Self> {
+        let name = FileName::from_path(index_path)?;
+        let config = IndexConfig {
+            bloom_config: bloom,
+            recreate_index_file: true,
+        };
+        let index = Index::from_file(name, config, IoDriver::new_sync(), blob_size).await?;
+        Ok(Self { index })
+    }
+
+    pub fn push(&self, h: &ProbeHeader) -> Result<()> {
+        let key: K = h.key.clone().into();
+        self.index.push(&key, h.to_record_header()?)
+    }
+
+    pub async fn dump(&mut self, blob_size: u64) -> Result<usize> {
+        self.index.dump(blob_size).await
+    }
+
+    pub async fn load(&mut self, blob_size: u64) -> Result<()> {
+        self.index.load(blob_size).await
+    }
+
+    pub fn on_disk(&self) -> bool {
+        self.index.on_disk()
+    }
+
+    pub fn count(&self) -> usize {
+        self.index.count()
+    }
+
+    pub async fn get_latest(&self, key: &[u8]) -> Result<ReadResult<ProbeHeader>> {
+        let key: K = key.to_vec().into();
+        Ok(self
+            .index
+            .get_latest(&key)
+            .await?
+            .map(|h| ProbeHeader::from_record_header(&h)))
+    }
+
+    pub async fn get_all_with_deletion_marker(&self, key: &[u8]) -> Result<Vec<ProbeHeader>> {
+        let key: K = key.to_vec().into();
+        Ok(self
+            .index
+            .get_all_with_deletion_marker(&key)
+            .await?
+            .iter()
+            .map(ProbeHeader::from_record_header)
+            .collect())
+    }
+
+    /// Content of the in-memory map (ascending keys, each vector in stored order), `None` when
+    /// the index is on disk.
+    pub fn snapshot(&self) -> Option<Vec<(Vec<u8>, Vec<ProbeHeader>)>> {
+        self.index.verif_snapshot().map(|v| {
+            v.into_iter()
+                .map(|(k, hs)| {
+                    (
+                        k,
+                        hs.iter().map(ProbeHeader::from_record_header).collect(),
+                    )
+                })
+                .collect()
+        })
+    }
+
+    /// Answer of the index's own filter (range + bloom), probing the file when off-loaded.
+    pub async fn check_filter(&self, key: &[u8]) -> FilterResult {
+        let key: K = key.to_vec().into();
+        self.index.get_filter().contains(&self.index, &key).await
+    }
+
+    pub fn check_filter_fast(&self, key: &[u8]) -> FilterResult {
+        let key: K = key.to_vec().into();
+        self.index.get_filter().contains_fast(&key)
+    }
+
+    pub fn offload_filter(&mut self) -> usize {
+        self.index.offload_filter()
+    }
+}
